@@ -320,3 +320,78 @@ def per_instance_state(k: Kit, rule: str, modules, floor: int) -> None:
            f'{n} (class, field) pairs mutated through self: none is a bare '
            'class attribute')
     rep.floor(rule, 'mutated self containers', n, floor)
+
+
+def communicate_resumes(k: Kit, rule: str) -> None:
+    """SSHClientProcess.communicate lifts the buffer limit, then resumes."""
+    rep = k.rep
+    fi = k.func('process.SSHClientProcess.communicate')
+    g = k.cfg(fi)
+    lifts = [n for n, v in k.stores_to(fi, 'self._limit')
+             if isinstance(v, ast.Constant) and v.value == 0]
+    res = [n for n, c in k.calls_named(fi, '_maybe_resume_reading', 'self')]
+    rep.floor(rule, 'limit lifted in communicate', len(lifts), 1)
+    for lf in lifts:
+        w = g.path(lf.id, g.exit, blocked_nodes=[r.id for r in res],
+                   follow_exc=False)
+        rep.check(bool(res) and w is None, rule,
+                  key(fi, 'resume after the limit is lifted'),
+                  'every path from `self._limit = 0` to the end passes '
+                  '_maybe_resume_reading()',
+                  'communicate() / wait() lift the buffer limit without '
+                  're-running the resume test afterwards: a stream that had '
+                  'already paused the channel (one window buffered before '
+                  'the call) stays paused, no WINDOW_ADJUST is sent, the '
+                  'peer\'s CLOSE is never processed and wait() hangs',
+                  k.loc(fi, lf), g.describe_path(w) if w else None)
+    for r in res:
+        w = g.must_pass([lf.id for lf in lifts], dst=r.id)
+        rep.check(w is None, rule, key(fi, 'limit lifted before the resume '
+                                       'test'),
+                  'the resume test sees the lifted limit',
+                  'the resume test runs while the old limit is still set',
+                  k.loc(fi, r), g.describe_path(w) if w else None)
+
+
+def water_mark_table(k: Kit, rule: str) -> None:
+    """SSHChannel._pause_resume_writing over buffer lengths around the marks."""
+    from ..absint import evaluate, Obj, NotEvaluable
+    rep = k.rep
+    idx = k.idx
+    fi = k.func('channel.SSHChannel._pause_resume_writing')
+    body = [st for st in fi.node.body if not (
+        isinstance(st, ast.Expr) and isinstance(st.value, ast.Constant))]
+    bad = None
+    n = 0
+    for low, high in ((0, 0), (0, 3), (10, 40)):
+        for paused in (False, True):
+            for blen in sorted({0, 1, low, low + 1, max(low - 1, 0), high,
+                                high + 1}):
+                n += 1
+                try:
+                    o = evaluate(idx, fi.module, body,
+                                 {'self._send_paused': paused,
+                                  'self._send_buf_len': blen,
+                                  'self._send_low_water': low,
+                                  'self._send_high_water': high,
+                                  'self._session': Obj('S')}, {},
+                                 lambda a, b, c: Obj('x'))
+                except NotEvaluable as exc:
+                    rep.error(rule, key(fi, 'not-evaluable'), str(exc))
+                    return
+                resumed = bool(o.called('self._session.resume_writing'))
+                pausedn = bool(o.called('self._session.pause_writing'))
+                want_res = paused and blen <= low
+                want_pau = (not paused) and blen > high
+                if (resumed, pausedn) != (want_res, want_pau) and bad is None:
+                    bad = (f'low={low} high={high} paused={paused} buffered='
+                           f'{blen}: resume={resumed} pause={pausedn}, '
+                           f'expected resume={want_res} pause={want_pau}' +
+                           (' - with a low-water mark of 0 '
+                            '(set_write_buffer_limits(0)) a writer paused by '
+                            'back-pressure is never resumed once the buffer '
+                            'has drained: drain() hangs' if want_res else ''))
+    rep.count('eval.water_mark_states', n)
+    rep.check(bad is None, rule, key(fi, 'water mark table'),
+              f'{n} states: resume iff paused and buffered <= low, pause iff '
+              'not paused and buffered > high', str(bad), fi.loc(fi.node))
